@@ -1,12 +1,15 @@
-(* MsgOk.v -- C04 for error rendering: the messages the evaluator reports only name positions of the line.
+(* MsgOk.v -- C04 for error rendering: every failure a run reports carries a document.
+   `failure`'s FStderr holds the document Message::render (Model/Message.v) built in the state and with the meta of
+   the command level that reports the failure; None stands for a panic of the rendering (an index out of range, an
+   unwrap of None, a panicking State::set_scope).  This file shows it is never None:
    (1) conflict marks name a position of the line as the winner, in every state reachable by legal steps
-       (cw_ok; the premise added to Reach.step for marks);
-   (2) for EVERY parser of the model -- no well-formedness premise, adjacent groups with any members
-       included -- an error handed out by `eval` from a well-formed state records only positions of the
-       line and scopes inside the ledger (`mok`): mutual induction over the parser, one lemma per
-       combinator;
-   (3) hence `Message::render` (Model/Message.v) returns a document for every failure a command level
-       reports itself (render_message_returns, run_sub_renders). *)
+       (cw_ok; the premise of Reach.step for marks);
+   (2) Message::render returns for every message that records only positions of the line, in such a state;
+   (3) for EVERY parser of the model -- no well-formedness premise, adjacent groups with any members included --
+       an error handed out by `eval` from a well-formed state records only positions of the line and scopes inside
+       the ledger, and a failure handed out of a subcommand carries a document (`mok`): mutual induction over the
+       parser / option parser, one lemma per combinator;
+   (4) hence every failure of a whole run carries a document (run_inner_renders). *)
 From Coq Require Import Lia List Bool Arith NArith.
 From BpafModel Require Import Wf Message.
 From BpafLemmas Require Import Tac EvalEq Find Reach Ledger NoLoss C05Lemmas AdjLaws LoopLaws Exact TotalLaws AdjTotal TotalAll MessageLaws.
@@ -39,15 +42,36 @@ Qed.
 Lemma reach_cw K s s' : reach K s s' -> cw_ok s -> cw_ok s'.
 Proof. induction 1 as [s|s1 s2 s3 R IH St]; intros H; [exact H|]. eapply step_cw; eauto. Qed.
 
-(* ------------------------------------------------------------------ (2) messages *)
-(* as msg_ok (MessageLaws.v), but a failure a subcommand already rendered is fine *)
-Definition mok (n : nat) (m : message) : Prop :=
-  match m with MsgParseFailure _ => True | _ => msg_ok n m end.
-Definition eok (n : nat) (r : eres) : Prop := match r with RErr m => mok n m | _ => True end.
-Definition okmsg (ev : evaluator) : Prop := forall s, G s -> eok (length (items s)) (fst (ev s)).
+(* ------------------------------------------------------------------ well-formed states with sane marks *)
+Definition GC (s : state) : Prop := G s /\ cw_ok s.
+
+Lemma reach_GC K s s' : reach K s s' -> GC s -> GC s' /\ items s' = items s.
+Proof. intros R [Hg Hc]. destruct (reach_G K s s' R Hg) as [G' I']. split; [split; [exact G'|eapply reach_cw; eauto]|exact I']. Qed.
 
 Lemma G_len s : G s -> length (ist s) = length (items s).
 Proof. intros [[H _] _]. exact H. Qed.
+
+Lemma set_scope_GC s a b s' : GC s -> set_scope s a b = Some s' -> GC s' /\ items s' = items s.
+Proof.
+  intros [Hg Hc] H. split; [split|].
+  - eapply set_scope_G; eauto. apply G_len. exact Hg.
+  - apply set_scope_fields in H. destruct H as (_ & Ht & _). unfold cw_ok. rewrite Ht. exact Hc.
+  - apply set_scope_fields in H. tauto.
+Qed.
+
+(* ------------------------------------------------------------------ messages *)
+Definition fdoc_ok (f : failure) : Prop := match f with FStderr _ None => False | _ => True end.
+(* as msg_ok (MessageLaws.v); a failure a subcommand already rendered must carry its document *)
+Definition mok (n : nat) (m : message) : Prop :=
+  match m with MsgParseFailure f => fdoc_ok f | _ => msg_ok n m end.
+Definition eok (n : nat) (r : eres) : Prop := match r with RErr m => mok n m | _ => True end.
+Definition sok (r : sres) : Prop := match r with SFail f => fdoc_ok f | _ => True end.
+Definition okmsg (ev : evaluator) : Prop := forall s, GC s -> eok (length (items s)) (fst (ev s)).
+Definition okrun (run : state -> sres * state) : Prop := forall s, GC s -> sok (fst (run s)).
+Definition keepsGC (ev : evaluator) : Prop := forall s, GC s -> GC (snd (ev s)) /\ items (snd (ev s)) = items s.
+
+Lemma ev_reach_keepsGC K ev : ev_reach K ev -> keepsGC ev.
+Proof. intros H s Hg. eapply reach_GC; eauto. Qed.
 
 Lemma missing_mok it s : G s -> mok (length (items s)) (missing_msg it s).
 Proof.
@@ -61,314 +85,6 @@ Proof.
     try (destruct (can_catch _); [exact Hb|exact Ha]).
   cbn in *. apply Forall_app. split; assumption.
 Qed.
-
-Section WithEnv.
-Variable env : bytes -> option bytes.
-
-(* ------------------------------------------------------------------ leaves *)
-Lemma convert_eok n ty w s : eok n (fst (convert_res ty w s)).
-Proof. unfold convert_res. destruct (convert ty w); exact I. Qed.
-
-Lemma flag_okmsg n p a : okmsg (eval_flag env n p a).
-Proof.
-  intros s Hg. unfold eval_flag. destruct (take_flag n s); [exact I|].
-  destruct (env_first env (n_env n)); [exact I|]. destruct a; [exact I|].
-  destruct (flag_item n); [apply missing_mok; exact Hg|]. destruct (n_env n); exact I.
-Qed.
-
-Lemma arg_okmsg n mv ty adj : okmsg (eval_arg env n mv ty adj).
-Proof.
-  intros s Hg. unfold eval_arg, take_arg.
-  destruct (find_item s _) as [key|] eqn:F.
-  - apply find_item_some in F. destruct F as (_ & a & st & Ha & _).
-    assert (Hlt : key < length (items s)) by (apply nth_error_Some; congruence).
-    destruct (get s (S key)) as [[c ad os|l ad os|w|w|w]|]; try exact Hlt; apply convert_eok.
-  - destruct (env_first env (n_env n)); [apply convert_eok|].
-    destruct (arg_item n mv); [apply missing_mok; exact Hg|]. destruct (n_env n); exact I.
-Qed.
-
-Lemma pos_okmsg mv ty pos help : okmsg (eval_pos mv ty pos help).
-Proof.
-  intros s Hg. unfold eval_pos. destruct (take_positional_word s) as [[[[ix st] w] s']|]; [|apply missing_mok; exact Hg].
-  destruct pos; destruct st; try exact I; apply convert_eok.
-Qed.
-
-Lemma any_okmsg mv help check anywhere : okmsg (eval_any mv help check anywhere).
-Proof.
-  intros s Hg. unfold eval_any.
-  match goal with |- context [match ?f with Some ix => _ | None => _ end] => destruct f as [ix|] end; [|apply missing_mok; exact Hg].
-  destruct (nth_error (items s) ix) as [a|]; [|apply missing_mok; exact Hg].
-  destruct (check (arg_os a)); [exact I|apply missing_mok; exact Hg].
-Qed.
-
-(* ------------------------------------------------------------------ repetition *)
-Section Loops.
-Variable ev : evaluator.
-Variable its : list arg.
-Hypothesis Hkeep : keepsG ev.
-Hypothesis Hok : okmsg ev.
-
-Definition oeok (o : opt_res) : Prop := match o with OErr m => mok (length its) m | _ => True end.
-
-Lemma parse_option_eok len s catch : goodG its s -> oeok (fst (fst (parse_option ev len s catch))).
-Proof.
-  intros [Hg Hi]. unfold parse_option. pose proof (Hok s Hg) as N. rewrite Hi in N. destruct (ev s) as [r s1]. cbn [fst] in N.
-  destruct r; try exact I.
-  - destruct (lt_len (remaining s1) len); exact I.
-  - destruct (catch || (is_missing m && Nat.eqb (remaining s) (remaining s1)) || (negb (is_missing m) && can_catch m)); [exact I|exact N].
-Qed.
-
-Lemma parse_option_good len s catch v len' s' :
-  goodG its s -> parse_option ev len s catch = (OSome v, len', s') -> goodG its s'.
-Proof.
-  intros Hg. unfold parse_option. pose proof (goodG_next ev its Hkeep s Hg) as Hn.
-  destruct (ev s) as [r s1]. cbn [snd] in Hn. destruct r; try discriminate.
-  - destruct (lt_len (remaining s1) len); [|discriminate]. intros H; inversion H; subst. exact Hn.
-  - destruct (catch || (is_missing m && Nat.eqb (remaining s) (remaining s1)) || (negb (is_missing m) && can_catch m)); discriminate.
-Qed.
-
-Lemma many_loop_eok catch fuel : forall len s acc,
-  goodG its s -> eok (length its) (fst (fst (many_loop ev catch fuel len s acc))).
-Proof.
-  induction fuel as [|f IH]; intros len s acc Hg; [exact I|].
-  cbn [many_loop]. pose proof (parse_option_eok len s catch Hg) as N.
-  destruct (parse_option ev len s catch) as [[o len'] s'] eqn:E. cbn [fst] in N.
-  destruct o; try exact I; [|exact N].
-  apply IH. eapply parse_option_good; eauto.
-Qed.
-
-Lemma count_loop_eok fuel : forall len s cur n last,
-  goodG its s -> eok (length its) (fst (fst (fst (count_loop ev fuel len s cur n last)))).
-Proof.
-  induction fuel as [|f IH]; intros len s cur n last Hg; [exact I|].
-  cbn [count_loop]. pose proof (parse_option_eok len s false Hg) as N.
-  destruct (parse_option ev len s false) as [[o len'] s'] eqn:E. cbn [fst] in N.
-  destruct o; try exact I; [|exact N].
-  destruct (Nat.eqb cur (remaining s')); [exact I|]. apply IH. eapply parse_option_good; eauto.
-Qed.
-End Loops.
-
-Lemma optional_okmsg ev c : keepsG ev -> okmsg ev -> okmsg (optional_body ev c).
-Proof.
-  intros Hk Ht s Hg. unfold optional_body.
-  pose proof (parse_option_eok ev (items s) Ht None s c (conj Hg eq_refl)) as N.
-  destruct (parse_option ev None s c) as [[o l] s']. cbn [fst] in N. destruct o; try exact I; exact N.
-Qed.
-Lemma many_okmsg ev c : keepsG ev -> okmsg ev -> okmsg (many_body ev c).
-Proof.
-  intros Hk Ht s Hg. unfold many_body.
-  pose proof (many_loop_eok ev (items s) Hk Ht c (loop_fuel s) None s [] (conj Hg eq_refl)) as N.
-  destruct (many_loop ev c (loop_fuel s) None s []) as [[r acc] s']. cbn [fst] in N. destruct r; try exact I; exact N.
-Qed.
-Lemma some_okmsg ev m c : keepsG ev -> okmsg ev -> okmsg (some_body ev m c).
-Proof.
-  intros Hk Ht s Hg. unfold some_body.
-  pose proof (many_loop_eok ev (items s) Hk Ht c (loop_fuel s) None s [] (conj Hg eq_refl)) as N.
-  destruct (many_loop ev c (loop_fuel s) None s []) as [[r acc] s']. cbn [fst] in N. destruct r; try exact I; try exact N.
-  destruct acc; exact I.
-Qed.
-Lemma count_okmsg ev : keepsG ev -> okmsg ev -> okmsg (count_body ev).
-Proof.
-  intros Hk Ht s Hg. unfold count_body.
-  pose proof (count_loop_eok ev (items s) Hk Ht (loop_fuel s) None s (remaining s) 0 None (conj Hg eq_refl)) as N.
-  destruct (count_loop ev (loop_fuel s) None s (remaining s) 0 None) as [[[r k] l] s']. cbn [fst] in N.
-  destruct r; try exact I; exact N.
-Qed.
-Lemma last_okmsg ev : keepsG ev -> okmsg ev -> okmsg (last_body ev).
-Proof.
-  intros Hk Ht s Hg. unfold last_body.
-  pose proof (count_loop_eok ev (items s) Hk Ht (loop_fuel s) None s (remaining s) 0 None (conj Hg eq_refl)) as N.
-  pose proof (count_loop_goodG ev (items s) Hk (loop_fuel s) None s (remaining s) 0 None (conj Hg eq_refl)) as Gn.
-  destruct (count_loop ev (loop_fuel s) None s (remaining s) 0 None) as [[[r k] l] s']. cbn [fst snd] in N, Gn.
-  destruct r; try exact I; try exact N. destruct l; [exact I|].
-  destruct Gn as [Gn Hi]. rewrite <- Hi. apply Ht. exact Gn.
-Qed.
-
-(* ------------------------------------------------------------------ pass-through wrappers *)
-Lemma fallback_with_okmsg ev fb : okmsg ev -> okmsg (fallback_with_body ev fb).
-Proof.
-  intros Ht s Hg. unfold fallback_with_body. pose proof (Ht s Hg) as N. destruct (ev s) as [r s']. cbn [fst] in N.
-  destruct r; try exact I. destruct (can_catch m); [destruct fb; exact I|exact N].
-Qed.
-Lemma guard_okmsg ev c m : okmsg ev -> okmsg (guard_body ev c m).
-Proof.
-  intros Ht s Hg. unfold guard_body. pose proof (Ht s Hg) as N. destruct (ev s) as [r s']. cbn [fst] in N.
-  destruct r; try exact I; try exact N. destruct (c v); exact I.
-Qed.
-Lemma parse_okmsg ev f : okmsg ev -> okmsg (parse_body ev f).
-Proof.
-  intros Ht s Hg. unfold parse_body. pose proof (Ht s Hg) as N. destruct (ev s) as [r s']. cbn [fst] in N.
-  destruct r; try exact I; try exact N. destruct (f v); exact I.
-Qed.
-Lemma map_okmsg ev f : okmsg ev -> okmsg (map_body ev f).
-Proof.
-  intros Ht s Hg. unfold map_body. pose proof (Ht s Hg) as N. destruct (ev s) as [r s']. cbn [fst] in N.
-  destruct r; try exact I; exact N.
-Qed.
-Lemma hide_okmsg ev : okmsg ev -> okmsg (hide_body ev).
-Proof.
-  intros Ht s Hg. unfold hide_body. pose proof (Ht s Hg) as N. destruct (ev s) as [r s']. cbn [fst] in N.
-  destruct r; try exact I. destruct m; try exact N. cbn. constructor.
-Qed.
-
-Lemma or_okmsg eva evb : okmsg eva -> okmsg evb -> okmsg (or_body eva evb).
-Proof.
-  intros Ha Hb s Hg. unfold or_body. pose proof (Ha s Hg) as Na. pose proof (Hb s Hg) as Nb.
-  destruct (eva s) as [ra sa]. destruct (evb s) as [rb sb]. cbn [fst] in Na, Nb.
-  destruct ra; try exact I; destruct rb; try exact I; unfold this_or_that;
-    destruct (Nat.compare (depth sa) (depth sb)); cbn; try exact I; try assumption;
-    try (apply mok_combine; assumption).
-  all: match goal with |- context [let '(_, _) := ?x in _] => destruct x as [[|] [w|]] end; cbn; exact I.
-Qed.
-
-Lemma con_go_okmsg ff evs : Forall keepsG evs -> Forall okmsg evs -> forall s first acc err,
-  G s -> match err with Some e => mok (length (items s)) e | None => True end ->
-  eok (length (items s)) (fst (con_go ff evs s first acc err)).
-Proof.
-  intros Hk Ht. induction evs as [|ev t IH]; intros s first acc err Hg He; cbn [con_go].
-  - destruct err; [exact He|exact I].
-  - inversion Hk as [|? ? Hk1 Hk2]; subst. inversion Ht as [|? ? Ht1 Ht2]; subst.
-    pose proof (Ht1 s Hg) as N. destruct (Hk1 s Hg) as [Gn Hi]. destruct (ev s) as [r s']. cbn [fst snd] in N, Gn, Hi.
-    rewrite <- Hi. destruct r; try exact I.
-    + apply IH; try assumption. rewrite Hi. exact He.
-    + destruct (ff && first); [rewrite Hi; exact N|]. apply IH; try assumption.
-      rewrite Hi. destruct err; [exact He|exact N].
-Qed.
-
-Lemma con_okmsg ff evs : Forall keepsG evs -> Forall okmsg evs -> okmsg (con_body ff evs).
-Proof.
-  intros Hk Ht s Hg. unfold con_body, con_reset. pose proof (con_go_okmsg ff evs Hk Ht s true [] None Hg I) as N.
-  destruct (con_go ff evs s true [] None) as [r s']. exact N.
-Qed.
-
-(* ------------------------------------------------------------------ commands *)
-Lemma cmd_okmsg name aliases shorts help adjacent m_sub i_sub run :
-  okmsg (cmd_body name aliases shorts help adjacent m_sub i_sub run).
-Proof.
-  intros s Hg. unfold cmd_body.
-  pose proof (take_cmd_any_reach (fun _ => True) ((name :: aliases) ++ map utf8_encode_char shorts) s (fun _ _ => I)) as R.
-  destruct (take_cmd_any _ s) as [hit s1]. cbn [snd] in R.
-  destruct (reach_G _ s s1 R Hg) as [G1 Hi]. destruct hit.
-  - repeat (case_goal; cbn [fst eok mok]; try exact I).
-  - cbn [fst eok]. rewrite <- Hi. apply missing_mok. exact G1.
-Qed.
-
-(* ------------------------------------------------------------------ adjacent groups *)
-Section Adj.
-Variable ev : evaluator.
-Hypothesis Hok : okmsg ev.
-
-Definition best_ok (n : nat) (b : adj_best) : Prop := mok n (b_err b).
-Definition step_ok (n : nat) (st : adj_step) : Prop :=
-  match st with ANext b => best_ok n b | AStop r _ => eok n r | AReturn _ _ => True end.
-
-Lemma adj_inner_ok orig before : length (ist orig) = length (items orig) ->
-  forall fuel ta best, G ta -> items ta = items orig -> best_ok (length (items orig)) best ->
-  step_ok (length (items orig)) (adj_inner ev orig before fuel ta best).
-Proof.
-  intros Hl. induction fuel as [|f IH]; intros ta best Gt Hi Hb; [exact I|].
-  unfold adj_inner; fold adj_inner. pose proof (Hok ta Gt) as N. rewrite Hi in N.
-  destruct (ev ta) as [r ta1]. cbn [fst] in N. destruct r; try exact I.
-  - destruct (adjacent_scope ta1 orig) as [| |a b]; try exact I.
-    + destruct (set_scope ta1 _ _); exact I.
-    + destruct (set_scope orig a b) as [ta'|] eqn:E; [|exact I].
-      apply IH; [eapply set_scope_G; eauto| |exact Hb].
-      apply set_scope_fields in E. tauto.
-  - destruct (Nat.ltb before (remaining ta1)); [exact I|].
-    destruct (Nat.ltb (b_consumed best) (before - remaining ta1)); [exact N|exact Hb].
-Qed.
-
-Lemma adj_try_ok orig width start best : G orig -> best_ok (length (items orig)) best ->
-  step_ok (length (items orig)) (adj_try ev orig width start best).
-Proof.
-  intros Go Hb. pose proof (G_len orig Go) as Hl. unfold adj_try.
-  destruct (set_scope orig start (length (items orig))) as [t0|] eqn:E0; [|exact I].
-  pose proof (set_scope_G _ _ _ _ Hl E0) as G0. apply set_scope_fields in E0. destruct E0 as (I0 & T0 & _).
-  assert (L0 : length (ist t0) = length (items t0)) by congruence.
-  destruct (set_scope t0 start (start + width)) as [sc|] eqn:E1; [|exact I].
-  pose proof (set_scope_G _ _ _ _ L0 E1) as G1. apply set_scope_fields in E1. destruct E1 as (I1 & T1 & _).
-  destruct (Nat.eqb (remaining sc) 0); [exact Hb|].
-  pose proof (Hok sc G1) as N. destruct (ev sc) as [r0 sc']. cbn [fst] in N.
-  assert (Hgo : step_ok (length (items orig))
-                  (if Nat.eqb (remaining sc) (remaining sc') then ANext best
-                   else match set_scope t0 start (sc_end orig) with
-                        | None => AStop (RPanic P_set_scope) orig
-                        | Some this_arg1 =>
-                          match (if Nat.ltb (remaining this_arg1) (sc_end orig - start)
-                                 then let '(a, b) := adjacently_available_from this_arg1 start in set_scope this_arg1 a b
-                                 else Some this_arg1) with
-                          | None => AStop (RPanic P_set_scope) orig
-                          | Some this_arg2 => adj_inner ev orig (remaining this_arg1) (loop_fuel orig) this_arg2 best
-                          end
-                        end)).
-  { destruct (Nat.eqb (remaining sc) (remaining sc')); [exact Hb|].
-    destruct (set_scope t0 start (sc_end orig)) as [t1|] eqn:E2; [|exact I].
-    pose proof (set_scope_G _ _ _ _ L0 E2) as G2. apply set_scope_fields in E2. destruct E2 as (I2 & T2 & _).
-    assert (L2 : length (ist t1) = length (items t1)) by congruence.
-    destruct (Nat.ltb (remaining t1) (sc_end orig - start)).
-    - destruct (adjacently_available_from t1 start) as [a b].
-      destruct (set_scope t1 a b) as [t2|] eqn:E3; [|exact I].
-      pose proof (set_scope_G _ _ _ _ L2 E3) as G3. apply set_scope_fields in E3. destruct E3 as (I3 & _).
-      apply adj_inner_ok; [exact Hl|exact G3|congruence|exact Hb].
-    - apply adj_inner_ok; [exact Hl|exact G2|congruence|exact Hb]. }
-  destruct r0; try exact I; exact Hgo.
-Qed.
-
-Lemma adj_outer_ok orig width : G orig -> forall starts best, best_ok (length (items orig)) best ->
-  eok (length (items orig)) (fst (adj_outer ev orig width starts best)).
-Proof.
-  intros Go. induction starts as [|st more IH]; intros best Hb; cbn [adj_outer]; [exact Hb|].
-  pose proof (adj_try_ok orig width st best Go Hb) as N.
-  destruct (adj_try ev orig width st best) as [v s|b|r s]; cbn [fst step_ok] in *; [exact I|apply IH; exact N|exact N].
-Qed.
-
-Lemma adjacent_okmsg fi : okmsg (eval_adjacent ev fi).
-Proof.
-  intros s Hg. unfold eval_adjacent. destruct fi as [it|]; [|exact I].
-  apply adj_outer_ok; [exact Hg|]. unfold best_ok. cbn [b_err]. apply missing_mok. exact Hg.
-Qed.
-End Adj.
-
-(* ------------------------------------------------------------------ every parser *)
-Theorem eval_okmsg_all :
-  (forall p, okmsg (eval env p)) /\
-  (forall ps, Forall okmsg (evals env ps)) /\
-  (forall o : oparser, True).
-Proof.
-  apply parser_plist_oparser_ind; intros; try exact I; try (intros s; autorewrite with evaleq).
-  - apply flag_okmsg.
-  - apply arg_okmsg.
-  - apply pos_okmsg.
-  - apply any_okmsg.
-  - apply cmd_okmsg.
-  - (* PCon *) destruct fields as [|q1 [|q2 t]].
-    + rewrite eval_PCon_nil. intros _. exact I.
-    + rewrite eval_PCon_one. rewrite evals_cons in H. inversion H; subst. auto.
-    + rewrite eval_PCon_many. apply con_okmsg; [apply evals_keepsG|exact H].
-  - apply adjacent_okmsg. apply con_okmsg; [apply evals_keepsG|exact H].
-  - apply or_okmsg; auto.
-  - apply optional_okmsg; [apply eval_keepsG|auto].
-  - apply many_okmsg; [apply eval_keepsG|auto].
-  - apply some_okmsg; [apply eval_keepsG|auto].
-  - apply many_okmsg; [apply eval_keepsG|auto].
-  - apply count_okmsg; [apply eval_keepsG|auto].
-  - apply last_okmsg; [apply eval_keepsG|auto].
-  - apply fallback_with_okmsg; auto.
-  - apply fallback_with_okmsg; auto.
-  - apply guard_okmsg; auto.
-  - apply parse_okmsg; auto.
-  - apply map_okmsg; auto.
-  - apply hide_okmsg; auto.
-  - apply H; auto.
-  - apply H; auto.
-  - intros _. exact I.
-  - intros _. destruct r; exact I.
-  - intros _. exact I.
-  - apply H; auto.
-  - rewrite evals_nil. constructor.
-  - rewrite evals_cons. constructor; auto.
-Qed.
-End WithEnv.
 
 (* ------------------------------------------------------------------ (3) rendering returns *)
 Lemma first_item_lt s ix : first_item_ix s = Some ix -> exists a, nth_error (items s) ix = Some a.
@@ -438,46 +154,394 @@ Proof.
         -- apply render_plain_returns. exact Hm.
 Qed.
 
-(* ------------------------------------------------------------------ a command level, a whole run *)
-Section Levels.
+
+Section WithEnv.
 Variable env : bytes -> option bytes.
 
-(* what a level reports itself (not a failure its subcommand already rendered) it can render *)
-Theorem run_sub_renders q inf s m s2 :
-  G s -> cw_ok s ->
-  run_sub env (Options q inf) s = (SFail (FStderr m), s2) ->
-  (forall f, fst (eval env q s) <> RErr (MsgParseFailure f)) ->
-  render_message m s2 (meta_of q) <> None.
+(* ------------------------------------------------------------------ leaves *)
+Lemma convert_eok n ty w s : eok n (fst (convert_res ty w s)).
+Proof. unfold convert_res. destruct (convert ty w); exact I. Qed.
+
+Lemma flag_okmsg n p a : okmsg (eval_flag env n p a).
 Proof.
-  intros Hg Hc H Hnf. rewrite run_sub_eq in H.
-  pose proof (proj1 (eval_okmsg_all env) q s Hg) as N.
-  pose proof (eval_reach (fun _ => True) env q (proj1 kinds_all q) s) as R.
-  destruct (eval env q s) as [r s1]. cbn [fst snd] in *.
-  destruct (reach_G _ s s1 R Hg) as [G1 I1]. pose proof (reach_cw _ s s1 R Hc) as C1.
-  pose proof (info_eval_reach (fun _ => True) env inf s1 I I) as R2.
+  intros s [Hg _]. unfold eval_flag. destruct (take_flag n s); [exact I|].
+  destruct (env_first env (n_env n)); [exact I|]. destruct a; [exact I|].
+  destruct (flag_item n); [apply missing_mok; exact Hg|]. destruct (n_env n); exact I.
+Qed.
+
+Lemma arg_okmsg n mv ty adj : okmsg (eval_arg env n mv ty adj).
+Proof.
+  intros s [Hg _]. unfold eval_arg, take_arg.
+  destruct (find_item s _) as [key|] eqn:F.
+  - apply find_item_some in F. destruct F as (_ & a & st & Ha & _).
+    assert (Hlt : key < length (items s)) by (apply nth_error_Some; congruence).
+    destruct (get s (S key)) as [[c ad os|l ad os|w|w|w]|]; try exact Hlt; apply convert_eok.
+  - destruct (env_first env (n_env n)); [apply convert_eok|].
+    destruct (arg_item n mv); [apply missing_mok; exact Hg|]. destruct (n_env n); exact I.
+Qed.
+
+Lemma pos_okmsg mv ty pos help : okmsg (eval_pos mv ty pos help).
+Proof.
+  intros s [Hg _]. unfold eval_pos. destruct (take_positional_word s) as [[[[ix st] w] s']|]; [|apply missing_mok; exact Hg].
+  destruct pos; destruct st; try exact I; apply convert_eok.
+Qed.
+
+Lemma any_okmsg mv help check anywhere : okmsg (eval_any mv help check anywhere).
+Proof.
+  intros s [Hg _]. unfold eval_any.
+  match goal with |- context [match ?f with Some ix => _ | None => _ end] => destruct f as [ix|] end; [|apply missing_mok; exact Hg].
+  destruct (nth_error (items s) ix) as [a|]; [|apply missing_mok; exact Hg].
+  destruct (check (arg_os a)); [exact I|apply missing_mok; exact Hg].
+Qed.
+
+(* ------------------------------------------------------------------ repetition *)
+Section Loops.
+Variable ev : evaluator.
+Variable its : list arg.
+Hypothesis Hkeep : keepsGC ev.
+Hypothesis Hok : okmsg ev.
+
+Definition goodGC (s : state) : Prop := GC s /\ items s = its.
+Definition oeok (o : opt_res) : Prop := match o with OErr m => mok (length its) m | _ => True end.
+
+Lemma goodGC_next s : goodGC s -> goodGC (snd (ev s)).
+Proof. intros [Hg Hi]. destruct (Hkeep s Hg) as [B E]. split; [exact B|congruence]. Qed.
+
+Lemma parse_option_eok len s catch : goodGC s -> oeok (fst (fst (parse_option ev len s catch))).
+Proof.
+  intros [Hg Hi]. unfold parse_option. pose proof (Hok s Hg) as N. rewrite Hi in N. destruct (ev s) as [r s1]. cbn [fst] in N.
+  destruct r; try exact I.
+  - destruct (lt_len (remaining s1) len); exact I.
+  - destruct (catch || (is_missing m && Nat.eqb (remaining s) (remaining s1)) || (negb (is_missing m) && can_catch m)); [exact I|exact N].
+Qed.
+
+Lemma parse_option_good len s catch v len' s' :
+  goodGC s -> parse_option ev len s catch = (OSome v, len', s') -> goodGC s'.
+Proof.
+  intros Hg. unfold parse_option. pose proof (goodGC_next s Hg) as Hn.
+  destruct (ev s) as [r s1]. cbn [snd] in Hn. destruct r; try discriminate.
+  - destruct (lt_len (remaining s1) len); [|discriminate]. intros H; inversion H; subst. exact Hn.
+  - destruct (catch || (is_missing m && Nat.eqb (remaining s) (remaining s1)) || (negb (is_missing m) && can_catch m)); discriminate.
+Qed.
+
+Lemma many_loop_eok catch fuel : forall len s acc,
+  goodGC s -> eok (length its) (fst (fst (many_loop ev catch fuel len s acc))).
+Proof.
+  induction fuel as [|f IH]; intros len s acc Hg; [exact I|].
+  cbn [many_loop]. pose proof (parse_option_eok len s catch Hg) as N.
+  destruct (parse_option ev len s catch) as [[o len'] s'] eqn:E. cbn [fst] in N.
+  destruct o; try exact I; [|exact N].
+  apply IH. eapply parse_option_good; eauto.
+Qed.
+
+Lemma count_loop_eok fuel : forall len s cur n last,
+  goodGC s -> eok (length its) (fst (fst (fst (count_loop ev fuel len s cur n last)))).
+Proof.
+  induction fuel as [|f IH]; intros len s cur n last Hg; [exact I|].
+  cbn [count_loop]. pose proof (parse_option_eok len s false Hg) as N.
+  destruct (parse_option ev len s false) as [[o len'] s'] eqn:E. cbn [fst] in N.
+  destruct o; try exact I; [|exact N].
+  destruct (Nat.eqb cur (remaining s')); [exact I|]. apply IH. eapply parse_option_good; eauto.
+Qed.
+
+Lemma count_loop_goodGC fuel : forall len s cur n last,
+  goodGC s -> goodGC (snd (count_loop ev fuel len s cur n last)).
+Proof.
+  induction fuel as [|f IH]; intros len s cur n last Hg; cbn [count_loop]; [exact Hg|].
+  unfold parse_option. pose proof (goodGC_next s Hg) as Hn. destruct (ev s) as [r s1]. cbn [snd] in Hn.
+  destruct r; cbn [snd].
+  - destruct (lt_len (remaining s1) len); cbn [snd]; [|exact Hn].
+    destruct (Nat.eqb cur (remaining s1)); cbn [snd]; [exact Hn|apply IH; exact Hn].
+  - destruct (false || (is_missing m && Nat.eqb (remaining s) (remaining s1)) || (negb (is_missing m) && can_catch m)); cbn [snd];
+      [exact Hg|exact Hn].
+  - exact Hn.
+  - exact Hn.
+Qed.
+End Loops.
+
+Lemma optional_okmsg ev c : keepsGC ev -> okmsg ev -> okmsg (optional_body ev c).
+Proof.
+  intros Hk Ht s Hg. unfold optional_body.
+  pose proof (parse_option_eok ev (items s) Ht None s c (conj Hg eq_refl)) as N.
+  destruct (parse_option ev None s c) as [[o l] s']. cbn [fst] in N. destruct o; try exact I; exact N.
+Qed.
+Lemma many_okmsg ev c : keepsGC ev -> okmsg ev -> okmsg (many_body ev c).
+Proof.
+  intros Hk Ht s Hg. unfold many_body.
+  pose proof (many_loop_eok ev (items s) Hk Ht c (loop_fuel s) None s [] (conj Hg eq_refl)) as N.
+  destruct (many_loop ev c (loop_fuel s) None s []) as [[r acc] s']. cbn [fst] in N. destruct r; try exact I; exact N.
+Qed.
+Lemma some_okmsg ev m c : keepsGC ev -> okmsg ev -> okmsg (some_body ev m c).
+Proof.
+  intros Hk Ht s Hg. unfold some_body.
+  pose proof (many_loop_eok ev (items s) Hk Ht c (loop_fuel s) None s [] (conj Hg eq_refl)) as N.
+  destruct (many_loop ev c (loop_fuel s) None s []) as [[r acc] s']. cbn [fst] in N. destruct r; try exact I; try exact N.
+  destruct acc; exact I.
+Qed.
+Lemma count_okmsg ev : keepsGC ev -> okmsg ev -> okmsg (count_body ev).
+Proof.
+  intros Hk Ht s Hg. unfold count_body.
+  pose proof (count_loop_eok ev (items s) Hk Ht (loop_fuel s) None s (remaining s) 0 None (conj Hg eq_refl)) as N.
+  destruct (count_loop ev (loop_fuel s) None s (remaining s) 0 None) as [[[r k] l] s']. cbn [fst] in N.
+  destruct r; try exact I; exact N.
+Qed.
+Lemma last_okmsg ev : keepsGC ev -> okmsg ev -> okmsg (last_body ev).
+Proof.
+  intros Hk Ht s Hg. unfold last_body.
+  pose proof (count_loop_eok ev (items s) Hk Ht (loop_fuel s) None s (remaining s) 0 None (conj Hg eq_refl)) as N.
+  pose proof (count_loop_goodGC ev (items s) Hk (loop_fuel s) None s (remaining s) 0 None (conj Hg eq_refl)) as Gn.
+  destruct (count_loop ev (loop_fuel s) None s (remaining s) 0 None) as [[[r k] l] s']. cbn [fst snd] in N, Gn.
+  destruct r; try exact I; try exact N. destruct l; [exact I|].
+  destruct Gn as [Gn Hi]. rewrite <- Hi. apply Ht. exact Gn.
+Qed.
+
+(* ------------------------------------------------------------------ pass-through wrappers *)
+Lemma fallback_with_okmsg ev fb : okmsg ev -> okmsg (fallback_with_body ev fb).
+Proof.
+  intros Ht s Hg. unfold fallback_with_body. pose proof (Ht s Hg) as N. destruct (ev s) as [r s']. cbn [fst] in N.
+  destruct r; try exact I. destruct (can_catch m); [destruct fb; exact I|exact N].
+Qed.
+Lemma guard_okmsg ev c m : okmsg ev -> okmsg (guard_body ev c m).
+Proof.
+  intros Ht s Hg. unfold guard_body. pose proof (Ht s Hg) as N. destruct (ev s) as [r s']. cbn [fst] in N.
+  destruct r; try exact I; try exact N. destruct (c v); exact I.
+Qed.
+Lemma parse_okmsg ev f : okmsg ev -> okmsg (parse_body ev f).
+Proof.
+  intros Ht s Hg. unfold parse_body. pose proof (Ht s Hg) as N. destruct (ev s) as [r s']. cbn [fst] in N.
+  destruct r; try exact I; try exact N. destruct (f v); exact I.
+Qed.
+Lemma map_okmsg ev f : okmsg ev -> okmsg (map_body ev f).
+Proof.
+  intros Ht s Hg. unfold map_body. pose proof (Ht s Hg) as N. destruct (ev s) as [r s']. cbn [fst] in N.
+  destruct r; try exact I; exact N.
+Qed.
+Lemma hide_okmsg ev : okmsg ev -> okmsg (hide_body ev).
+Proof.
+  intros Ht s Hg. unfold hide_body. pose proof (Ht s Hg) as N. destruct (ev s) as [r s']. cbn [fst] in N.
+  destruct r; try exact I. destruct m; try exact N. cbn. constructor.
+Qed.
+
+Lemma or_okmsg eva evb : okmsg eva -> okmsg evb -> okmsg (or_body eva evb).
+Proof.
+  intros Ha Hb s Hg. unfold or_body. pose proof (Ha s Hg) as Na. pose proof (Hb s Hg) as Nb.
+  destruct (eva s) as [ra sa]. destruct (evb s) as [rb sb]. cbn [fst] in Na, Nb.
+  destruct ra; try exact I; destruct rb; try exact I; unfold this_or_that;
+    destruct (Nat.compare (depth sa) (depth sb)); cbn; try exact I; try assumption;
+    try (apply mok_combine; assumption).
+  all: match goal with |- context [let '(_, _) := ?x in _] => destruct x as [[|] [w|]] end; cbn; exact I.
+Qed.
+
+Lemma con_go_okmsg ff evs : Forall keepsGC evs -> Forall okmsg evs -> forall s first acc err,
+  GC s -> match err with Some e => mok (length (items s)) e | None => True end ->
+  eok (length (items s)) (fst (con_go ff evs s first acc err)).
+Proof.
+  intros Hk Ht. induction evs as [|ev t IH]; intros s first acc err Hg He; cbn [con_go].
+  - destruct err; [exact He|exact I].
+  - inversion Hk as [|? ? Hk1 Hk2]; subst. inversion Ht as [|? ? Ht1 Ht2]; subst.
+    pose proof (Ht1 s Hg) as N. destruct (Hk1 s Hg) as [Gn Hi]. destruct (ev s) as [r s']. cbn [fst snd] in N, Gn, Hi.
+    rewrite <- Hi. destruct r; try exact I.
+    + apply IH; try assumption. rewrite Hi. exact He.
+    + destruct (ff && first); [rewrite Hi; exact N|]. apply IH; try assumption.
+      rewrite Hi. destruct err; [exact He|exact N].
+Qed.
+
+Lemma con_okmsg ff evs : Forall keepsGC evs -> Forall okmsg evs -> okmsg (con_body ff evs).
+Proof.
+  intros Hk Ht s Hg. unfold con_body, con_reset. pose proof (con_go_okmsg ff evs Hk Ht s true [] None Hg I) as N.
+  destruct (con_go ff evs s true [] None) as [r s']. exact N.
+Qed.
+
+(* ------------------------------------------------------------------ commands *)
+Lemma GC_set_path s p : GC s -> GC (set_path s p).
+Proof. intros H. exact H. Qed.
+
+Lemma cmd_okmsg name aliases shorts help adjacent m_sub i_sub run :
+  okrun run -> okmsg (cmd_body name aliases shorts help adjacent m_sub i_sub run).
+Proof.
+  intros Hr s Hg. unfold cmd_body.
+  pose proof (take_cmd_any_reach (fun _ => True) ((name :: aliases) ++ map utf8_encode_char shorts) s (fun _ _ => I)) as R.
+  destruct (take_cmd_any _ s) as [hit s1]. cbn [snd] in R.
+  destruct (reach_GC _ s s1 R Hg) as [G1 Hi]. destruct hit.
+  2:{ cbn [fst eok]. rewrite <- Hi. apply missing_mok. exact (proj1 G1). }
+  destruct (current s1) as [cur|]; [|exact I].
+  destruct (set_scope s1 cur (sc_end s1)) as [s2|] eqn:E2; [|exact I].
+  destruct (set_scope_GC _ _ _ _ G1 E2) as [G2 _].
+  pose proof (GC_set_path s2 (path s2 ++ [name]) G2) as G3.
+  set (s3 := set_path s2 (path s2 ++ [name])) in *.
+  destruct adjacent.
+  - destruct (adjacently_available_from s3 (S (sc_start s3))) as [a b].
+    destruct (set_scope s3 a b) as [s4|] eqn:E4; [|exact I].
+    destruct (set_scope_GC _ _ _ _ G3 E4) as [G4 _].
+    pose proof (Hr s4 G4) as N4. destruct (run s4) as [[v|f|w|] s5]; cbn [fst sok] in N4; try exact I.
+    + destruct (set_scope s5 (sc_start s3) (sc_end s3)); exact I.
+    + destruct (adjacent_scope s5 s3) as [| |na nb]; [exact I|exact N4|].
+      destruct (set_scope s3 na nb) as [o1|] eqn:E5; [|exact I].
+      destruct (run o1) as [[v|f'|w|] o2]; try exact I; [|exact N4].
+      destruct (set_scope o2 (sc_start s3) (sc_end s3)); exact I.
+  - pose proof (Hr s3 G3) as N3. destruct (run s3) as [[v|f|w|] s4]; cbn [fst sok] in N3; try exact I. exact N3.
+Qed.
+
+(* ------------------------------------------------------------------ adjacent groups *)
+Section Adj.
+Variable ev : evaluator.
+Hypothesis Hok : okmsg ev.
+
+Definition best_ok (n : nat) (b : adj_best) : Prop := mok n (b_err b).
+Definition step_ok (n : nat) (st : adj_step) : Prop :=
+  match st with ANext b => best_ok n b | AStop r _ => eok n r | AReturn _ _ => True end.
+
+Lemma adj_inner_ok orig before : GC orig ->
+  forall fuel ta best, GC ta -> items ta = items orig -> best_ok (length (items orig)) best ->
+  step_ok (length (items orig)) (adj_inner ev orig before fuel ta best).
+Proof.
+  intros Go. induction fuel as [|f IH]; intros ta best Gt Hi Hb; [exact I|].
+  unfold adj_inner; fold adj_inner. pose proof (Hok ta Gt) as N. rewrite Hi in N.
+  destruct (ev ta) as [r ta1]. cbn [fst] in N. destruct r; try exact I.
+  - destruct (adjacent_scope ta1 orig) as [| |a b]; try exact I.
+    + destruct (set_scope ta1 _ _); exact I.
+    + destruct (set_scope orig a b) as [ta'|] eqn:E; [|exact I].
+      destruct (set_scope_GC _ _ _ _ Go E) as [G' I']. apply IH; [exact G'|exact I'|exact Hb].
+  - destruct (Nat.ltb before (remaining ta1)); [exact I|].
+    destruct (Nat.ltb (b_consumed best) (before - remaining ta1)); [exact N|exact Hb].
+Qed.
+
+Lemma adj_try_ok orig width start best : GC orig -> best_ok (length (items orig)) best ->
+  step_ok (length (items orig)) (adj_try ev orig width start best).
+Proof.
+  intros Go Hb. unfold adj_try.
+  destruct (set_scope orig start (length (items orig))) as [t0|] eqn:E0; [|exact I].
+  destruct (set_scope_GC _ _ _ _ Go E0) as [G0 I0].
+  destruct (set_scope t0 start (start + width)) as [sc|] eqn:E1; [|exact I].
+  destruct (set_scope_GC _ _ _ _ G0 E1) as [G1 I1].
+  destruct (Nat.eqb (remaining sc) 0); [exact Hb|].
+  pose proof (Hok sc G1) as N. destruct (ev sc) as [r0 sc']. cbn [fst] in N.
+  assert (Hgo : step_ok (length (items orig))
+                  (if Nat.eqb (remaining sc) (remaining sc') then ANext best
+                   else match set_scope t0 start (sc_end orig) with
+                        | None => AStop (RPanic P_set_scope) orig
+                        | Some this_arg1 =>
+                          match (if Nat.ltb (remaining this_arg1) (sc_end orig - start)
+                                 then let '(a, b) := adjacently_available_from this_arg1 start in set_scope this_arg1 a b
+                                 else Some this_arg1) with
+                          | None => AStop (RPanic P_set_scope) orig
+                          | Some this_arg2 => adj_inner ev orig (remaining this_arg1) (loop_fuel orig) this_arg2 best
+                          end
+                        end)).
+  { destruct (Nat.eqb (remaining sc) (remaining sc')); [exact Hb|].
+    destruct (set_scope t0 start (sc_end orig)) as [t1|] eqn:E2; [|exact I].
+    destruct (set_scope_GC _ _ _ _ G0 E2) as [G2 I2].
+    destruct (Nat.ltb (remaining t1) (sc_end orig - start)).
+    - destruct (adjacently_available_from t1 start) as [a b].
+      destruct (set_scope t1 a b) as [t2|] eqn:E3; [|exact I].
+      destruct (set_scope_GC _ _ _ _ G2 E3) as [G3 I3].
+      apply adj_inner_ok; [exact Go|exact G3|congruence|exact Hb].
+    - apply adj_inner_ok; [exact Go|exact G2|congruence|exact Hb]. }
+  destruct r0; try exact I; exact Hgo.
+Qed.
+
+Lemma adj_outer_ok orig width : GC orig -> forall starts best, best_ok (length (items orig)) best ->
+  eok (length (items orig)) (fst (adj_outer ev orig width starts best)).
+Proof.
+  intros Go. induction starts as [|st more IH]; intros best Hb; cbn [adj_outer]; [exact Hb|].
+  pose proof (adj_try_ok orig width st best Go Hb) as N.
+  destruct (adj_try ev orig width st best) as [v s|b|r s]; cbn [fst step_ok] in *; [exact I|apply IH; exact N|exact N].
+Qed.
+
+Lemma adjacent_okmsg fi : okmsg (eval_adjacent ev fi).
+Proof.
+  intros s Hg. unfold eval_adjacent. destruct fi as [it|]; [|exact I].
+  apply adj_outer_ok; [exact Hg|]. unfold best_ok. cbn [b_err]. apply missing_mok. exact (proj1 Hg).
+Qed.
+End Adj.
+
+(* ------------------------------------------------------------------ run_subparser *)
+Lemma run_sub_body_sok inf m s r s1 :
+  GC s1 -> eok (length (items s1)) r -> sok (fst (run_sub_body env inf m s (r, s1))).
+Proof.
+  intros G1 N. pose proof (info_eval_reach (fun _ => True) env inf s1 I I) as R2.
   assert (Fin : forall err, mok (length (items s1)) err ->
                  match err with MsgParseFailure _ => False | _ => True end ->
-                 match info_eval env inf s1 with
-                 | (Some (ExHelp detailed), s2) =>
-                   if invariant_ok (meta_of q) then (SFail (FStdout (HHelp (path s2) inf (meta_of q) detailed)), s2)
-                   else (SPanic P_invariant, s2)
-                 | (Some (ExVersion v), s2) => (SFail (FStdout (HVersion v)), s2)
-                 | (None, s2) => (SFail (FStderr err), s2)
-                 end = (SFail (FStderr m), s2) -> render_message m s2 (meta_of q) <> None).
-  { intros err He Hn E. destruct (info_eval env inf s1) as [[[d|ver]|] s3]; cbn [snd] in R2.
-    - destruct (invariant_ok (meta_of q)); discriminate.
-    - discriminate.
-    - inversion E; subst. destruct (reach_G _ s1 s2 R2 G1) as [G2 I2].
-      apply render_message_returns; [exact G2|eapply reach_cw; eauto|rewrite I2; exact He|exact Hn]. }
-  unfold run_sub_body in H. destruct r as [v|e|w|]; try discriminate.
-  - cbn [andb] in H. destruct (first_item_ix s1) as [ix|] eqn:F; [|discriminate].
-    apply (Fin (MsgUnconsumed ix)); [|exact I|exact H].
+                 sok (fst (match info_eval env inf s1 with
+                           | (Some (ExHelp detailed), s2) =>
+                             if invariant_ok m then (SFail (FStdout (HHelp (path s2) inf m detailed)), s2)
+                             else (SPanic P_invariant, s2)
+                           | (Some (ExVersion v), s2) => (SFail (FStdout (HVersion v)), s2)
+                           | (None, s2) => (SFail (FStderr err (render_message err s2 m)), s2)
+                           end))).
+  { intros err He Hn. destruct (info_eval env inf s1) as [[[d|ver]|] s3]; cbn [snd] in R2.
+    - destruct (invariant_ok m); exact I.
+    - exact I.
+    - destruct (reach_GC _ s1 s3 R2 G1) as [[G2 C2] I2]. cbn [fst sok fdoc_ok].
+      pose proof (render_message_returns err s3 m G2 C2) as Hr. rewrite I2 in Hr. specialize (Hr He Hn).
+      destruct (render_message err s3 m); [exact I|congruence]. }
+  unfold run_sub_body. destruct r as [v|e|w|]; try exact I.
+  - cbn [andb]. destruct (first_item_ix s1) as [ix|] eqn:F; [|exact I].
+    apply (Fin (MsgUnconsumed ix)); [|exact I].
     apply first_item_lt in F. destruct F as [a Ha]. cbn. apply nth_error_Some. congruence.
   - destruct (_ && i_help_if_no_args inf && Nat.eqb (remaining s) 0).
-    { destruct (invariant_ok (meta_of q)); discriminate. }
-    rewrite <- I1 in N. cbn [eok] in N.
-    destruct e; try (apply (Fin _ N I H)). exfalso. eapply Hnf. reflexivity.
+    { destruct (invariant_ok m); exact I. }
+    cbn [eok] in N. destruct e; try (apply (Fin _ N I)). exact N.
 Qed.
+
+(* ------------------------------------------------------------------ every parser *)
+Lemma kinds_all' : (forall p, kinds_ok (fun _ => True) p) /\ (forall ps, lkinds_ok (fun _ => True) ps) /\
+                   (forall o, okinds_ok (fun _ => True) o).
+Proof. exact kinds_ok_true. Qed.
+
+Lemma eval_keepsGC p : keepsGC (eval env p).
+Proof. apply (ev_reach_keepsGC (fun _ => True)). apply eval_reach. apply (proj1 kinds_all'). Qed.
+Lemma evals_keepsGC ps : Forall keepsGC (evals env ps).
+Proof.
+  pose proof (proj1 (proj2 (eval_reach_all (fun _ => True) env)) ps (proj1 (proj2 kinds_all') ps)) as H.
+  induction H; constructor; [eapply ev_reach_keepsGC; eauto|assumption].
+Qed.
+
+Theorem eval_okmsg_all :
+  (forall p, okmsg (eval env p)) /\
+  (forall ps, Forall okmsg (evals env ps)) /\
+  (forall o, okrun (run_sub env o)).
+Proof.
+  apply parser_plist_oparser_ind; intros; try (intros s; autorewrite with evaleq).
+  - apply flag_okmsg.
+  - apply arg_okmsg.
+  - apply pos_okmsg.
+  - apply any_okmsg.
+  - apply cmd_okmsg. exact H.
+  - (* PCon *) destruct fields as [|q1 [|q2 t]].
+    + rewrite eval_PCon_nil. intros _. exact I.
+    + rewrite eval_PCon_one. rewrite evals_cons in H. inversion H; subst. auto.
+    + rewrite eval_PCon_many. apply con_okmsg; [apply evals_keepsGC|exact H].
+  - apply adjacent_okmsg. apply con_okmsg; [apply evals_keepsGC|exact H].
+  - apply or_okmsg; auto.
+  - apply optional_okmsg; [apply eval_keepsGC|auto].
+  - apply many_okmsg; [apply eval_keepsGC|auto].
+  - apply some_okmsg; [apply eval_keepsGC|auto].
+  - apply many_okmsg; [apply eval_keepsGC|auto].
+  - apply count_okmsg; [apply eval_keepsGC|auto].
+  - apply last_okmsg; [apply eval_keepsGC|auto].
+  - apply fallback_with_okmsg; auto.
+  - apply fallback_with_okmsg; auto.
+  - apply guard_okmsg; auto.
+  - apply parse_okmsg; auto.
+  - apply map_okmsg; auto.
+  - apply hide_okmsg; auto.
+  - apply H; auto.
+  - apply H; auto.
+  - intros _. exact I.
+  - intros _. destruct r; exact I.
+  - intros _. exact I.
+  - apply H; auto.
+  - rewrite evals_nil. constructor.
+  - rewrite evals_cons. constructor; auto.
+  - intros Hg. rewrite run_sub_eq. pose proof (H s Hg) as N. destruct (eval_keepsGC p s Hg) as [G1 I1].
+    destruct (eval env p s) as [r s1]. cbn [fst snd] in *. apply run_sub_body_sok; [exact G1|rewrite I1; exact N].
+Qed.
+End WithEnv.
+
+(* ------------------------------------------------------------------ a whole run *)
+Section Levels.
+Variable env : bytes -> option bytes.
 
 (* ---- the tokenizer's own message *)
 Lemma dis_go_ambig sf sa os : forall cs first ff acc p,
@@ -523,19 +587,58 @@ Proof.
   - apply nth_error_In in H. apply repeat_spec in H. discriminate.
 Qed.
 
-(* every failure a run reports at its top level has a document *)
-Theorem run_inner_renders feat q inf name argv m s' :
-  run_inner_state feat env (Options q inf) name argv = (SFail (FStderr m), s') ->
-  (forall f, fst (eval env q (fst (initial_state (Options q inf) name argv))) <> RErr (MsgParseFailure f)) ->
-  render_message m s' (meta_of q) <> None.
+(* every failure of a whole run -- whichever command level reports it, the tokenizer's ambiguity message included --
+   carries the document Message::render built for it *)
+Theorem run_inner_renders feat o name argv : sok (fst (run_inner_state feat env o name argv)).
 Proof.
-  unfold run_inner_state, initial_state. destruct (short_tables (Options q inf)) as [sf sa].
+  unfold run_inner_state, initial_state. destruct (short_tables o) as [sf sa].
   pose proof (construct_G sf sa name argv) as Hg. pose proof (construct_cw sf sa name argv) as Hc.
   destruct (construct sf sa name argv) as [st amb] eqn:C. cbn [fst] in *.
   destruct amb as [[ix short]|].
-  - intros H _. inversion H; subst. apply render_message_returns; [exact Hg|exact Hc| |exact I].
-    unfold construct in C. destruct (t_marker (tokenize sf sa argv)); injection C as Hs Ha. all: rewrite <- Hs; cbn [items]; unfold tokenize in *;
-      apply tok_go_ambig in Ha; exact Ha.
-  - intros H Hn. eapply run_sub_renders; eauto.
+  - cbn [fst sok fdoc_ok].
+    assert (Hm : mok (length (items st)) (MsgAmbiguity ix short)).
+    { unfold construct in C. destruct (t_marker (tokenize sf sa argv)); injection C as Hs Ha.
+      all: rewrite <- Hs; cbn [items]; unfold tokenize in *; apply tok_go_ambig in Ha; exact Ha. }
+    pose proof (render_message_returns (MsgAmbiguity ix short) st (ometa_of o) Hg Hc Hm I) as Hr.
+    destruct (render_message (MsgAmbiguity ix short) st (ometa_of o)); [exact I|congruence].
+  - apply (proj2 (proj2 (eval_okmsg_all env)) o st). split; assumption.
+Qed.
+
+(* C06: when the parser of a level fails with a conversion / `parse` / guard failure, a run of that level that ends on
+   stderr reports exactly that message (help / version requests and `fallback_to_usage` end on stdout), and the
+   document it carries ends with the conversion error text / the guard's message *)
+Theorem level_reports_failed_value q inf s s1 e m dd s2 :
+  eval env q s = (RErr e, s1) ->
+  match e with MsgParseFailed _ _ | MsgGuardFailed _ _ => True | _ => False end ->
+  run_sub env (Options q inf) s = (SFail (FStderr m dd), s2) ->
+  m = e /\
+  exists d, dd = Some d /\
+            match e with
+            | MsgParseFailed _ t => exists pre, doc_text d = pre ++ m_colon_sp ++ t
+            | MsgGuardFailed _ t => exists pre, doc_text d = pre ++ t
+            | _ => True
+            end.
+Proof.
+  intros E Hk H. rewrite run_sub_eq, E in H. unfold run_sub_body in H.
+  assert (Hm : m = e /\ dd = render_message e s2 (meta_of q)).
+  { destruct e; try contradiction;
+      (destruct (_ && i_help_if_no_args inf && Nat.eqb (remaining s) 0);
+       [destruct (invariant_ok (meta_of q)); discriminate|]);
+      (destruct (info_eval env inf s1) as [[[d0|ver]|] s3];
+       [destruct (invariant_ok (meta_of q)); discriminate|discriminate|inversion H; subst; split; reflexivity]). }
+  destruct Hm as [-> ->]. split; [reflexivity|]. unfold render_message.
+  destruct e; try contradiction; cbn [pre_render].
+  - destruct (render_doc (RPlain (MsgParseFailed ix m)) s2) as [d|] eqn:R; [|discriminate R].
+    exists d. split; [reflexivity|]. eapply parse_failed_text; eauto.
+  - destruct (render_doc (RPlain (MsgGuardFailed ix m)) s2) as [d|] eqn:R; [|discriminate R].
+    exists d. split; [reflexivity|]. eapply guard_failed_text; eauto.
 Qed.
 End Levels.
+
+(* the same, spelled out *)
+Corollary run_inner_has_document env feat o name argv m :
+  fst (run_inner_state feat env o name argv) <> SFail (FStderr m None).
+Proof. intros H. pose proof (run_inner_renders env feat o name argv) as N. rewrite H in N. exact N. Qed.
+
+Corollary run_sub_has_document env o s m : GC s -> fst (run_sub env o s) <> SFail (FStderr m None).
+Proof. intros Hg H. pose proof (proj2 (proj2 (eval_okmsg_all env)) o s Hg) as N. rewrite H in N. exact N. Qed.
